@@ -35,6 +35,7 @@ type c06Case struct {
 	Uniform int        `json:"uniform_chunk,omitempty"`
 	Cut     int        `json:"cut_at,omitempty"`   // one forced short read ending exactly at this stream offset
 	Std     string     `json:"std_type,omitempty"` // a standard-library reader / writer type
+	Zoo     string     `json:"zoo_message,omitempty"` // an entry of the message zoo (c06_zoo.go), read with uniform_chunk
 }
 
 func init() {
@@ -42,7 +43,7 @@ func init() {
 		ID:     "C06",
 		Word32: true,
 		Level:  "model_checking",
-		Rule: "Scheduled part (E4 on the instrumented pbcmpl and iohelper packages): every unordered pair of {Marshal, Unmarshal} × 7 frames as a 2-thread program - each thread with its own message, writer and reader -, every schedule with at most 2 (thorough 3) preemptions; each thread must meet the per-frame obligations exactly as when it runs alone. Sequential part: a payload-length sweep (EVERY length 0..1100, every threshold length up to 70000 and every length 2^20-16..2^20+2 - bodies on both sides of the 1 MiB switch to an incremental read - × 4 message kinds: per-frame obligations, and read-back with a small frame behind it); E3 stateless deviation-bounded DFS over a scripted io.Reader: (frames) every frame of the alphabet {generated protobuf message, its versioned wrapper, legacy Marshal/Unmarshal message, its versioned variant} × payload lengths {0,1,2,31,32,33,127,128,129,5000, 2^20+1 (+65535, 65536, 2^20, 2^21+5 thorough)} × versions (every length 0..16, an interior NUL, a leading NUL, trailing spaces): Marshal's count = bytes written = Size = HeaderSize + encoding length, wire bytes = independently built header + encoding, ReadHeader = (version, 32, length) consuming 32 bytes; " +
+		Rule: "Scheduled part (E4 on the instrumented pbcmpl and iohelper packages): every unordered pair of {Marshal, Unmarshal} × 7 frames as a 2-thread program - each thread with its own message, writer and reader -, every schedule with at most 2 (thorough 3) preemptions; each thread must meet the per-frame obligations exactly as when it runs alone. Sequential part: a MESSAGE ZOO (25 messages of 15 generated types given by their hand-written wire bytes: every wire type, negative varints, nested messages, a map entry, and UNKNOWN FIELDS at top level and inside a nested message; each through Marshal / Size and back through Unmarshal into a fresh and into a dirty reused target, proto.Equal + identical re-encoding + identical Size, with a small frame behind it, under whole / 1-byte / 7-byte chunkings); a payload-length sweep (EVERY length 0..1100, every threshold length up to 70000 and every length 2^20-16..2^20+2 - bodies on both sides of the 1 MiB switch to an incremental read - × 4 message kinds: per-frame obligations, and read-back with a small frame behind it); E3 stateless deviation-bounded DFS over a scripted io.Reader: (frames) every frame of the alphabet {generated protobuf message, its versioned wrapper, legacy Marshal/Unmarshal message, its versioned variant} × payload lengths {0,1,2,31,32,33,127,128,129,5000, 2^20+1 (+65535, 65536, 2^20, 2^21+5 thorough)} × versions (every length 0..16, an interior NUL, a leading NUL, trailing spaces): Marshal's count = bytes written = Size = HeaderSize + encoding length, wire bytes = independently built header + encoding, ReadHeader = (version, 32, length) consuming 32 bytes; " +
 			"(histories) every stream of 1..3 frames over a 6-frame sub-alphabet, read back by k+1 Unmarshal calls under every reader chunking with ≤B deviations from 'deliver as much as asked' (deviations: return only j bytes for any j, deliver the last bytes together with io.EOF, one (0,nil) read) plus every uniform chunk size 1..len; every stream also through 11 standard-library reader types and every frame marshalled into 4 standard-library writer types (code may special-case dynamic types); every stream also MARSHALLED frame after frame into one writer (the last message object twice) and read back into reused target messages; three streams in which a frame with a body above 1 MiB is followed by further frames, under whole/uniform chunkings and one forced short read around every frame boundary, body start and power of two; each call must return the next message, its version, n = frame length = bytes actually pulled from the reader, and the extra call (0, cause io.EOF). " +
 			"states = choice-tree nodes (= executions), transitions = reader answers given. Non-trivial: executions with at least one deviation or a multi-frame stream.",
 		Assumptions: []string{
@@ -746,6 +747,26 @@ func c06Run(c *mc.Ctx) {
 			c.Add("payload_length_sweep_cases", int64(2*len(kinds)))
 		})
 	}
+	// the message zoo (c06_zoo.go): message CONTENT - fifteen generated types, every wire type, nested
+	// messages, unknown fields - under whole, 1-byte and 7-byte chunkings, fresh and dirty reused targets
+	{
+		zoo := c06ZooList()
+		chunks := []int{0, 1, 7}
+		c.Expect(int64(len(zoo) * len(chunks)))
+		c.Set("zoo_messages", len(zoo))
+		c.Par(len(zoo)*len(chunks), func(i int) {
+			e, ch := zoo[i/len(chunks)], chunks[i%len(chunks)]
+			if ch == 1 && len(e.Raw) > 1<<16 {
+				ch = 4093 // the 1 MiB entry: a prime chunk size instead of single bytes
+			}
+			if g, w := c06ZooJudge(e.Name, ch); g != w {
+				c.Fail(11<<50|int64(i), "zoo", "zoo", c06Case{Zoo: e.Name, Uniform: ch}, g, w)
+			}
+			c.Count(1, 1)
+			c.Add("states", 1)
+			c.Add("zoo_cases", 1)
+		})
+	}
 	c06Scheduled(c)
 }
 
@@ -804,6 +825,8 @@ func c06Judge(kind string, cs c06Case) (got, want string) {
 		return gw[0], gw[1]
 	}
 	switch kind {
+	case "zoo":
+		return c06ZooJudge(cs.Zoo, cs.Uniform)
 	case "marshalseq":
 		return c06MarshalSeq(cs.Frames)
 	case "stream/std":
